@@ -370,3 +370,17 @@ MUTANTS += [
                 state->current_name.bptr = consumed.bptr;''')],
      'expect': {'C06': 'next'}},
 ]
+
+# ---- C11: exact span of get_raw ---------------------------------------------------------------------------------
+MUTANTS += [
+    {'name': 'c11_raw_size_without_end_byte', 'edits': [(P, '''        if (_advance(parser, BINSON_ADVANCE_ENTER_ARRAY) &&
+            _advance(parser, BINSON_ADVANCE_LEAVE_ARRAY)) {
+            raw->bsize = parser->buffer_used - current_pos;''', '''        if (_advance(parser, BINSON_ADVANCE_ENTER_ARRAY) &&
+            _advance(parser, BINSON_ADVANCE_LEAVE_ARRAY)) {
+            raw->bsize = parser->buffer_used - current_pos - 1;''')],
+     'expect': {'C11': 'SPAN-FORM'}},
+    {'name': 'c11_raw_array_left_as_object', 'edits': [(P, '''        if (_advance(parser, BINSON_ADVANCE_ENTER_ARRAY) &&
+            _advance(parser, BINSON_ADVANCE_LEAVE_ARRAY)) {''', '''        if (_advance(parser, BINSON_ADVANCE_ENTER_ARRAY) &&
+            _advance(parser, BINSON_ADVANCE_LEAVE_OBJECT)) {''')],
+     'expect': {'C11': 'SPAN-EXACT', 'C06': 'get_raw'}},
+]
